@@ -8,8 +8,7 @@ Pre(e)    == [cap |-> e.cap, pos |-> e.pos]
 CallOf(e) == Call(e.m, e.a, e.b, e.n, e.lead)
 InAlphabet(e) ==
   \/ e.m = "new"
-  \/ /\ e.m \in Methods /\ e.cap >= 0 /\ e.pos \in 0..e.cap /\ e.n >= 0 /\ e.lead \in 0..3
-     /\ e.m = "push_uint_var" => VarArgOk(e.a)
+  \/ e.m \in Methods /\ e.cap >= 0 /\ e.pos \in 0..e.cap /\ e.n >= 0 /\ e.lead \in 0..3
 
 (* statement clauses first: no report, no crash; an accepted call touches only
    [0, cap) and leaves pos in 0..cap; a rejected call leaves the buffer usable
